@@ -777,6 +777,20 @@ impl World {
                 out.push(name);
             }
         }
+        // the three records are named by what they are, not by their storage key: any engine key that reads like an
+        // in-flight record (kept under another key, in a bucket, ...) counts as well
+        if out.is_empty() {
+            let has = |hay: &[u8], needle: &[u8]| hay.windows(needle.len()).any(|w| w == needle);
+            for (k, _) in dump.iter() {
+                if k.starts_with(&p) {
+                    let rest = &k[p.len()..];
+                    if has(rest, b"tmp-") || has(rest, b"tmp_") || has(rest, b"sent-funds") || has(rest, b"sent_funds") {
+                        out.push("in-flight-like key");
+                        break;
+                    }
+                }
+            }
+        }
         out
     }
 }
